@@ -1,45 +1,64 @@
 """C08: local tensor quadrature grids honour their exactness and point contracts.
 
-Correspondence  Model/LocalGrids.v  <->  sparseSpACE/Grid.py (+ Integrator.py, Hierarchization.py, BasisFunctions.py):
+Correspondence  Model/LocalGrids.v + Model/LocalRules.v  <->  sparseSpACE/Grid.py (+ Integrator.py, Hierarchization.py,
+BasisFunctions.py):
   * trapezoidal (plain / modified basis) and Simpson grids: exact model of levelToNumPoints, 1D coordinates,
-    1D weights, tensor points, tensor weights and integrate() of monomials (entry sub 0);
-  * Clenshaw-Curtis, Leja, Gauss-Legendre, Lagrange, B-spline: model of the announced counts / border slice
-    (sub 2) and the verified checkers moments_ok (sub 1, per dimension) and nd_moments_ok (sub 3, tensor rule;
-    for the hierarchical families on the *effective nodal weights* read off integrate() with Kronecker functions).
+    1D weights, tensor points, tensor weights and integrate() of monomials (entry sub 0; sub 5 when the dimensions carry
+    their own flag/family: Grid.set_boundaries, MixedGrid);
+  * Clenshaw-Curtis, Leja, Gauss-Legendre: model of the announced counts / border slice (sub 2), of the AFFINE MAP that
+    carries the family's reference rule to the sub-box (sub 4; theorems C08_*_map_exact: exactness is transported for
+    every sub-box), of the Clenshaw-Curtis closed-form weights (sub 8) and of the interpolatory weights of the returned
+    nodes (sub 6, small n); verified checkers moments_ok (sub 1: per dimension on the sub-box AND on the reference rule
+    of the level) and nd_moments_ok (sub 3, tensor rule);
+  * Lagrange, B-spline: counts (sub 2) and the checkers on the *effective nodal weights* read off integrate() with
+    Kronecker functions;
+  * every family: tensor points / weights / integrals = tensor product of the 1D arrays (sub 7).
 Oracle: the property's own predicate evaluated with Fractions on the implementation outputs alone."""
-import itertools
 import json
+import os
 from fractions import Fraction as F
 
 from .. import sx
 from ..impl import run_impl
 from ..model import run_model
+from . import _c08_gen
 
 ASSUMPTIONS = [
     'isclose(start, a) / end == b are modelled as equality; generated boxes live on a dyadic lattice where they agree',
     'exact-arithmetic model (Qc); trapezoidal observables are bit-exact on dyadic boxes, Simpson (h/3) and integrals '
     'are compared with |impl-model| <= 256*eps*sum|terms|',
-    'Clenshaw-Curtis / Leja / Gauss-Legendre / Lagrange / B-spline rules are opaque: certified per explored case by '
-    'the verified checkers moments_ok / nd_moments_ok (relative tolerance 2^-40 resp. 2^-30 for LAPACK-based rules) '
-    'on the floats returned by the implementation',
+    'Clenshaw-Curtis / Leja / Gauss-Legendre: the reference rule of a level (numpy leggauss table, Leja points of the fmin '
+    'search, cosines) is opaque and certified per explored level by moments_ok; the map to the sub-box is modelled and '
+    'compared within 16 eps; Lagrange / B-spline rules are opaque and certified per explored case '
+    '(relative tolerance 2^-40 resp. 2^-30 for LAPACK-based rules) on the floats returned by the implementation',
     'scope (DESIGN C08 G): weight-sum/degree clauses are evaluated where boundary points are present or the sub-box '
     'does not touch the global boundary (and for the modified bases, degree 1); count/inside/alignment for every flag',
     '"integral" of a monomial is the formal integral (e^(k+1)-s^(k+1))/(k+1)',
     'an empty rule (level 0, boundary off, sub-box = whole domain) is not passed to integrate(): Function.__call__ on an '
     'empty batch is the subject of C12',
     'every case is a history of 1..4 requests on ONE Grid object (plus one boundary=True twin object for the boundary-off '
-    'clause); the model is a pure function of the request',
+    'clause, optionally a second object of the same class on another domain interleaved with the first); the model is a '
+    'pure function of the request',
     'Lagrange family: the verified checker is evaluated up to the degree the hierarchical construction guarantees, '
     'min(p, level+1); the nominal min(p, n-1) is evaluated by the oracle (known finding for p >= 4)',
+    'GaussLegendreGrid(normalize=True) divides the weights by the box length by design (C08_gauss_legendre_map_normalized): '
+    'its weight-sum/degree clauses are evaluated against moments / volume',
+    'excluded axes (raise or are unsupported on the unchanged tree): negative levels (TypeError in np.linspace), '
+    'LagrangeGrid/BSplineGrid with modified_basis on sub-boxes and boundary=False (known findings), '
+    'set_boundaries on Leja/Lagrange/B-spline/modified-basis grids, sub-boxes off the dyadic lattice (isclose vs ==; the '
+    'domain [2^34, 2^34+1] where math.isclose misfires on lattice boxes is generated: known finding C08-isclose-relative-far-domain)',
+    _c08_gen.ASSUMPTION,
 ]
 
 EPS = F(1, 2 ** 53)
 EQFAM = {'trap': 0, 'trapmod': 1, 'simpson': 2}
-CNTFAM = {'trap': 0, 'trapmod': 0, 'simpson': 0, 'lagrange': 0, 'bspline': 0, 'bsplinemod': 0, 'cc': 0, 'leja': 2, 'gl': 3}   # cc: the intended (a,b)-based count; the code compares with 0 and 1
+CNTFAM = {'trap': 0, 'trapmod': 0, 'simpson': 0, 'lagrange': 0, 'bspline': 0, 'bsplinemod': 0, 'cc': 0, 'leja': 2, 'gl': 3}
 HIER = ('lagrange', 'bspline', 'bsplinemod')
+AFFINE = {'gl': 0, 'leja': 1, 'cc': 2}
 RTOL = {'cc': F(1, 2 ** 40), 'gl': F(1, 2 ** 40), 'leja': F(1, 2 ** 30), 'lagrange': F(1, 2 ** 30),
         'bspline': F(1, 2 ** 30), 'bsplinemod': F(1, 2 ** 30), 'trap': F(1, 2 ** 44), 'trapmod': F(1, 2 ** 44),
-        'simpson': F(1, 2 ** 44)}
+        'simpson': F(1, 2 ** 44), 'mixed': F(1, 2 ** 40)}
+NPROC = int(os.environ.get('VERIF_NPROC', '0') or 0) or 16
 
 
 def fr(x):
@@ -51,50 +70,105 @@ def fs(x):
     return str(x.numerator) if x.denominator == 1 else '%d/%d' % (x.numerator, x.denominator)
 
 
+# ----------------------------------------------------------------------------------------------- per-dimension view
+def dimfams(case):
+    return list(case['mixed']) if case['fam'] == 'mixed' else [case['fam']] * len(case['lv'])
+
+
+def dimbnds(case):
+    """effective boundary flag per dimension at this step (constructor flag, MixedGrid 1D flags, set_boundaries)"""
+    if case.get('bnds') is not None:
+        return [bool(x) for x in case['bnds']]
+    if case['fam'] == 'mixed':
+        return [bool(x) for x in case['mbnd']]
+    return [bool(case['bnd'])] * len(case['lv'])
+
+
+def uniform(case):
+    return case['fam'] != 'mixed' and len(set(dimbnds(case))) == 1 and dimbnds(case)[0] == bool(case['bnd'])
+
+
 # ----------------------------------------------------------------------------------------------- implementation
-def make_grid(case, bnd=None):
+def _cont(xs, ct):
+    import numpy as np
+    if ct == 'np':
+        return np.array(xs)
+    if ct == 'tuple':
+        return tuple(xs)
+    return list(xs)
+
+
+def make_grid(case, bnd=None, dom=None):
     import sparseSpACE.Grid as G
     fam = case['fam']
-    a = [float(F(x)) for x in case['a']]
-    b = [float(F(x)) for x in case['b']]
+    ct = case.get('ct', 'list')
+    a0, b0 = (case['a'], case['b']) if dom is None else dom
+    a = [float(F(x)) for x in a0]
+    b = [float(F(x)) for x in b0]
+    if ct == 'np':
+        a, b = _cont(a, 'np'), _cont(b, 'np')
     bnd = case['bnd'] if bnd is None else bnd
+    kw = {}
+    if case.get('integ'):
+        kw['integrator'] = case['integ']
     if fam == 'trap':
-        return G.TrapezoidalGrid(a, b, boundary=bnd)
+        return G.TrapezoidalGrid(a, b, boundary=bnd, **kw)
     if fam == 'trapmod':
-        return G.TrapezoidalGrid(a, b, boundary=bnd, modified_basis=True)
+        return G.TrapezoidalGrid(a, b, boundary=bnd, modified_basis=True, **kw)
     if fam == 'simpson':
-        return G.SimpsonGrid(a, b, boundary=bnd)
+        return G.SimpsonGrid(a, b, boundary=bnd, **kw)
     if fam == 'cc':
-        return G.ClenshawCurtisGrid(a, b, boundary=bnd)
+        return G.ClenshawCurtisGrid(a, b, boundary=bnd, **kw)
     if fam == 'leja':
-        return G.LejaGrid(a, b, boundary=bnd)
+        return G.LejaGrid(a, b, boundary=bnd, **kw)
     if fam == 'gl':
-        return G.GaussLegendreGrid(a, b)
+        return G.GaussLegendreGrid(a, b, normalize=True) if case.get('norm') else G.GaussLegendreGrid(a, b)
     if fam == 'lagrange':
         return G.LagrangeGrid(a, b, boundary=bnd, p=case['p'])
     if fam == 'bspline':
         return G.BSplineGrid(a, b, boundary=bnd, p=case['p'])
     if fam == 'bsplinemod':
         return G.BSplineGrid(a, b, boundary=bnd, p=case['p'], modified_basis=True)
+    if fam == 'mixed':
+        grids = []
+        flags = [True] * len(a) if bnd is True and case['bnd'] is not True else case['mbnd']
+        for d, (f1, fl) in enumerate(zip(case['mixed'], flags)):
+            if f1 == 'trap':
+                grids.append(G.TrapezoidalGrid1D(a=a[d], b=b[d], boundary=bool(fl)))
+            elif f1 == 'trapmod':
+                grids.append(G.TrapezoidalGrid1D(a=a[d], b=b[d], boundary=False, modified_basis=True))
+            elif f1 == 'simpson':
+                grids.append(G.SimpsonGrid1D(a=a[d], b=b[d], boundary=bool(fl)))
+            elif f1 == 'cc':
+                grids.append(G.ClenshawCurtisGrid1D(a=a[d], b=b[d], boundary=bool(fl)))
+            elif f1 == 'gl':
+                grids.append(G.GaussLegendreGrid1D(a=a[d], b=b[d]))
+            else:
+                raise ValueError(f1)
+        return G.MixedGrid(a, b, grids, **kw)
     raise ValueError(fam)
 
 
 def _functions():
+    import numpy as np
     from sparseSpACE.Function import Function
 
     class Mono(Function):
-        def __init__(self, exps):
+        def __init__(self, exps, m=1):
             super().__init__()
             self.exps = exps
+            self.m = m
 
         def output_length(self):
-            return 1
+            return self.m
 
         def eval(self, c):
             r = 1.0
             for x, k in zip(c, self.exps):
                 r *= float(x) ** k
-            return r
+            if self.m == 1:
+                return r
+            return np.array([r * (j + 1) for j in range(self.m)])
 
     class Delta(Function):
         def __init__(self, pt):
@@ -112,7 +186,6 @@ def _functions():
 
 def _exc(e):
     import traceback
-    import os
     from ..impl import REPO
     where = ''
     for frm in reversed(traceback.extract_tb(e.__traceback__)):
@@ -122,6 +195,31 @@ def _exc(e):
     return [type(e).__name__, where, str(e)[:160]]
 
 
+_REF = {}
+
+
+def ref_rule(fam, level):
+    """reference rule of a level as the implementation produces it: Gauss-Legendre = numpy's leggauss table on [-1,1]
+    (what GaussLegendreGrid1D calls), Leja = a fresh LejaGrid on [0,1], Clenshaw-Curtis = a fresh grid on [-1,1]"""
+    key = (fam, level)
+    if key in _REF:
+        return _REF[key]
+    import sparseSpACE.Grid as G
+    if fam == 'gl':
+        import numpy.polynomial.legendre as legendre
+        c, w = legendre.leggauss(2 ** level + 1)
+    elif fam == 'leja':
+        g = G.LejaGrid([0.0], [1.0], boundary=True)
+        g.setCurrentArea([0.0], [1.0], [level])
+        c, w = g.get_coordinates_dim(0), g.weights[0]
+    else:
+        g = G.ClenshawCurtisGrid([-1.0], [1.0], boundary=True)
+        g.setCurrentArea([-1.0], [1.0], [level])
+        c, w = g.get_coordinates_dim(0), g.weights[0]
+    _REF[key] = ([sx.rat(x) for x in c], [sx.rat(x) for x in w])
+    return _REF[key]
+
+
 def observe(case, bnd=None, want_integrals=True, grid=None):
     """All observables of one grid on one sub-box; every stage records its own exception.
     grid: an existing Grid object that is REUSED for every call of this step (setCurrentArea, get_points_and_weights,
@@ -129,9 +227,13 @@ def observe(case, bnd=None, want_integrals=True, grid=None):
     import numpy as np
     Mono, Delta = _functions()
     out = {}
+    ct = case.get('ct', 'list')
     s = [float(F(x)) for x in case['s']]
     e = [float(F(x)) for x in case['e']]
-    lv = [int(l) for l in case['lv']]
+    lv0 = [int(l) for l in case['lv']]
+    lv = _cont(lv0, ct)
+    if ct == 'np':
+        s, e = _cont(s, 'np'), _cont(e, 'np')
     g = grid
     if g is None:
         try:
@@ -140,21 +242,40 @@ def observe(case, bnd=None, want_integrals=True, grid=None):
             out['exc'] = ['construct'] + _exc(ex)
             return out
     try:
-        g.setCurrentArea(s, e, lv)
+        if case.get('setb') and bnd is None:
+            g.set_boundaries([bool(x) for x in case['bnds']])
+        if case.get('none'):
+            g.setCurrentArea(None, None, lv)
+        else:
+            g.setCurrentArea(s, e, lv)
     except Exception as ex:
         out['exc'] = ['setCurrentArea'] + _exc(ex)
         return out
     try:
         out['num'] = [int(n) for n in g.levelToNumPoints(lv)]
+        out['numwb'] = [int(n) for n in g.levelToNumPointsWithBoundary(lv)]
+        out['num_attr'] = [int(n) for n in g.numPoints]
+        if case.get('probe') is not None:
+            pv = _cont([int(l) for l in case['probe']], ct)
+            out['num_probe'] = [int(n) for n in g.levelToNumPoints(pv)]
+            out['numwb_probe'] = [int(n) for n in g.levelToNumPointsWithBoundary(pv)]
+            # the announcement must not disturb the current area
+            out['num_after_probe'] = [int(n) for n in g.levelToNumPoints(lv)]
     except Exception as ex:
         out['exc'] = ['levelToNumPoints'] + _exc(ex)
         return out
     try:
-        out['coords'] = [[sx.rat(x) for x in g.get_coordinates_dim(d)] for d in range(len(lv))]
-        out['w1'] = [[sx.rat(x) for x in g.weights[d]] for d in range(len(lv))]
+        out['coords'] = [[sx.rat(x) for x in g.get_coordinates_dim(d)] for d in range(len(lv0))]
+        out['w1'] = [[sx.rat(x) for x in g.weights[d]] for d in range(len(lv0))]
         pts, wts = g.get_points_and_weights()
         out['points'] = [[sx.rat(x) for x in p] for p in pts]
         out['weights'] = [sx.rat(w) for w in wts]
+        out['get_num_points'] = int(g.get_num_points())
+        try:      # internal state written by Grid1d.set_current_area (transcribed by hand in the model: eq_np, eq_borders)
+            out['attrs'] = [[int(g1.num_points), int(g1.num_points_with_boundary), int(g1.lowerBorder), int(g1.upperBorder)]
+                            for g1 in g.grids]
+        except AttributeError:
+            pass
     except Exception as ex:
         out['exc'] = ['get_points_and_weights'] + _exc(ex)
         return out
@@ -162,10 +283,14 @@ def observe(case, bnd=None, want_integrals=True, grid=None):
         # an empty rule is not integrated (Function.__call__ on an empty batch is the subject of C12)
         return out
     ints = []
+    m = int(case.get('m', 1))
     for exps in case.get('exps', []):
         try:
-            v = g.integrate(Mono(exps), lv, s, e)
-            ints.append(sx.rat(float(np.ravel(v)[0])))
+            v = np.ravel(g.integrate(Mono(exps, m), lv, s, e))
+            if len(v) != m:
+                out['exc'] = ['integrate', 'ShapeError', 'Integrator', 'integrate returns %d components for an integrand with %d' % (len(v), m)]
+                return out
+            ints.append([sx.rat(float(x)) for x in v])
         except Exception as ex:
             out['exc'] = ['integrate'] + _exc(ex)
             return out
@@ -184,40 +309,100 @@ def observe(case, bnd=None, want_integrals=True, grid=None):
 
 
 def steps_of(hist):
-    """flat per-step cases of a history (one Grid object, consecutive sub-boxes / level vectors)"""
+    """flat per-step cases of a history (one Grid object, consecutive sub-boxes / level vectors); steps with obj=1
+    run on the second object (same class and flags, domain a2/b2)"""
     base = {k: v for k, v in hist.items() if k != 'steps'}
-    return [dict(base, **st) for st in hist['steps']]
+    out = []
+    for st in hist['steps']:
+        c = dict(base, **st)
+        if st.get('obj') == 1:
+            c['a'], c['b'] = hist['a2'], hist['b2']
+        out.append(c)
+    return out
 
 
 def impl_run(hist):
-    """Runs the whole history on ONE grid object (and one boundary=True twin for the restriction clause)."""
+    """Runs the whole history on ONE grid object (and one boundary=True twin for the restriction clause; a second
+    object on another domain when the history interleaves two objects)."""
     steps = steps_of(hist)
     res = []
-    g = g_on = None
+    # prelude: requests on FRESH objects of sibling classes (classes sharing code / class-level state with the family under
+    # test) in the same process, before the object under test exists; results are ignored
+    for pre in hist.get('pre', []):
+        try:
+            pc = dict(fam=pre['fam'], bnd=pre['bnd'], a=hist['a'], b=hist['b'], s=pre['s'], e=pre['e'], lv=pre['lv'])
+            if 'p' in pre:
+                pc['p'] = pre['p']
+            pg = make_grid(pc)
+            pg.setCurrentArea([float(F(x)) for x in pc['s']], [float(F(x)) for x in pc['e']], [int(l) for l in pc['lv']])
+            pg.get_points_and_weights()
+        except Exception:
+            pass
+    g = [None, None]
+    g_on = [None, None]
     cerr = None
     try:
-        g = make_grid(steps[0])
+        g[0] = make_grid(steps[0], dom=(hist['a'], hist['b']))
+        if 'a2' in hist:
+            g[1] = make_grid(steps[0], dom=(hist['a2'], hist['b2']))
     except Exception as ex:
         cerr = ['construct'] + _exc(ex)
-    twin = (not hist['bnd']) and hist['fam'] in ('trap', 'simpson', 'cc')
+    twin = ((not hist['bnd']) or any(st.get('bnds') is not None for st in hist['steps'])) \
+        and hist['fam'] in ('trap', 'simpson', 'cc', 'mixed')
     if twin:
         try:
-            g_on = make_grid(steps[0], True)
+            g_on[0] = make_grid(steps[0], True, dom=(hist['a'], hist['b']))
+            if 'a2' in hist:
+                g_on[1] = make_grid(steps[0], True, dom=(hist['a2'], hist['b2']))
         except Exception:
-            g_on = None
+            g_on = [None, None]
     for c in steps:
         if cerr is not None:
             res.append({'exc': cerr})
             continue
-        out = observe(c, grid=g)
-        if twin and g_on is not None:
-            out['on'] = observe(c, bnd=True, want_integrals=False, grid=g_on)
+        k = c.get('obj', 0)
+        out = observe(c, grid=g[k])
+        if twin and g_on[k] is not None:
+            out['on'] = observe(c, bnd=True, want_integrals=False, grid=g_on[k])
+        if c.get('probe') is not None and 'exc' not in out:
+            # oracle for the announcement at another level vector: what a FRESH object returns there
+            try:
+                fresh = make_grid(c, dom=(c['a'], c['b']))
+                if c.get('bnds') is not None:
+                    fresh.set_boundaries([bool(x) for x in c['bnds']])
+                fresh.setCurrentArea([float(F(x)) for x in c['s']], [float(F(x)) for x in c['e']], [int(l) for l in c['probe']])
+                out['probe_fresh'] = [len(fresh.get_coordinates_dim(d)) for d in range(len(c['lv']))]
+            except Exception as ex:
+                out['probe_fresh_exc'] = _exc(ex)
+        if 'coords' in out:
+            refs = []
+            for f1, l in zip(dimfams(c), c['lv']):
+                if f1 in AFFINE:
+                    try:
+                        refs.append(ref_rule(f1, int(l)))
+                    except Exception as ex:
+                        refs.append(None)
+                else:
+                    refs.append(None)
+            out['refs'] = refs
         res.append(out)
     return res
 
 
 # ----------------------------------------------------------------------------------------------- generator
-DOMAINS = [('0', '1'), ('0', '1'), ('0', '1'), ('-1', '2'), ('-3', '6'), ('1/2', '5/2'), ('-2', '-1'), ('0', '4'), ('-1', '1')]
+DOMAINS = [('0', '1'), ('0', '1'), ('0', '1'), ('-1', '2'), ('-3', '6'), ('1/2', '5/2'), ('-2', '-1'), ('0', '4'), ('-1', '1'),
+           ('1048576', '1048577')]      # the last one: far from the origin, still outside the reach of math.isclose's relative tolerance
+FAR_DOMAIN = ('17179869184', '17179869185')     # [2^34, 2^34+1]: isclose(start, a) is true for EVERY sub-box (known finding)
+
+
+def misfire(case):
+    """math.isclose(start, a) / isclose(end, b) (relative tolerance 1e-9 * |coordinate|) is true although the sub-box does not
+    touch that side of the domain: the border logic then treats an interior sub-box as touching"""
+    import math
+    for a, b, s, e in zip(case['a'], case['b'], case['s'], case['e']):
+        if (F(s) != F(a) and math.isclose(float(F(s)), float(F(a)))) or (F(e) != F(b) and math.isclose(float(F(e)), float(F(b)))):
+            return True
+    return False
 
 
 def gen_box(rng, a, b, maxlevel, allow0):
@@ -247,26 +432,44 @@ def touch_class(case):
     return t
 
 
+MAXLEVEL = {'trap': {1: 6, 2: 4, 3: 3}, 'trapmod': {1: 6, 2: 4, 3: 3}, 'simpson': {1: 6, 2: 4, 3: 3},
+            'cc': {1: 4, 2: 3, 3: 2}, 'gl': {1: 4, 2: 3, 3: 2}, 'leja': {1: 4, 2: 3, 3: 2}}
+
+
 def gen_case(rng, tier):
-    """A history: one grid object (family, flag, domain) and 1..4 consecutive (sub-box, level vector) requests."""
+    """A history: one grid object (family, flag, domain, constructor options) and 1..4 consecutive
+    (sub-box, level vector) requests, optionally with per-dimension flag changes, announcements at other level vectors,
+    the None area, a second object of the same class on another domain."""
     fam = rng.choice(['trap', 'trap', 'trap', 'trapmod', 'trapmod', 'simpson', 'simpson', 'simpson', 'cc', 'cc',
-                      'leja', 'gl', 'gl', 'lagrange', 'lagrange', 'bspline', 'bspline', 'bsplinemod'])
+                      'leja', 'gl', 'gl', 'lagrange', 'lagrange', 'bspline', 'bspline', 'bsplinemod', 'mixed', 'mixed'])
     thorough = tier != 'quick'
     dim = rng.choice([1, 1, 2, 2, 2, 3])
     p = None
-    if fam in ('trap', 'trapmod', 'simpson'):
-        maxlevel = {1: 6, 2: 4, 3: 3}[dim] + (1 if thorough and dim < 3 else 0)
+    hist = {}
+    if fam == 'mixed':
+        dim = rng.choice([2, 2, 3])
+        fams = [rng.choice(['trap', 'trap', 'trapmod', 'simpson', 'cc', 'gl']) for _ in range(dim)]
+        mbnd = [False if f1 in ('trapmod', 'gl') else rng.random() < 0.5 for f1 in fams]
+        hist.update(mixed=fams, mbnd=mbnd)
+        bnd = all(mbnd)
+        maxlevels = [min(MAXLEVEL[f1][dim], 3) for f1 in fams]
+    elif fam in ('trap', 'trapmod', 'simpson'):
+        ml = MAXLEVEL[fam][dim] + (1 if thorough and dim < 3 else 0)
+        maxlevels = [ml] * dim
         bnd = False if fam == 'trapmod' else rng.random() < 0.45
     elif fam in ('cc', 'gl'):
-        maxlevel = {1: 4, 2: 3, 3: 2}[dim]
+        ml = MAXLEVEL[fam][dim]
         if fam == 'gl' and dim == 1 and not thorough:
-            maxlevel = 3          # 17 Gauss points = degree 33: exact moments of 53-bit floats get expensive
+            ml = 3          # 17 Gauss points = degree 33: exact moments of 53-bit floats get expensive
+        maxlevels = [ml] * dim
         bnd = rng.random() < 0.7 if fam == 'cc' else False
+        if fam == 'gl' and rng.random() < 0.2:
+            hist['norm'] = True
     elif fam == 'leja':
-        maxlevel = {1: 4, 2: 3, 3: 2}[dim]
+        maxlevels = [MAXLEVEL[fam][dim]] * dim
         bnd = rng.random() < 0.75
     else:
-        maxlevel = {1: 4, 2: 3, 3: 1}[dim]
+        maxlevels = [{1: 4, 2: 3, 3: 1}[dim]] * dim
         if fam == 'lagrange':
             p = rng.choice([1, 2, 2, 3, 3, 3, 4, 5])
             bnd = rng.random() < 0.85
@@ -277,28 +480,128 @@ def gen_case(rng, tier):
             p = rng.choice([1, 3])
             bnd = False
     doms = [tuple(F(x) for x in rng.choice(DOMAINS)) for _ in range(dim)]
-    hist = dict(fam=fam, bnd=bool(bnd), a=[fs(d[0]) for d in doms], b=[fs(d[1]) for d in doms])
+    if fam in ('trap', 'trapmod', 'simpson', 'cc') and rng.random() < 0.04:
+        doms[rng.randrange(dim)] = tuple(F(x) for x in FAR_DOMAIN)
+    hist.update(fam=fam, bnd=bool(bnd), a=[fs(d[0]) for d in doms], b=[fs(d[1]) for d in doms])
     if p is not None:
         hist['p'] = p
+    # ---- constructor options / call conventions
+    if fam in ('trap', 'trapmod', 'simpson', 'cc', 'leja', 'mixed') and rng.random() < 0.3:
+        hist['integ'] = 'old'
+    r = rng.random()
+    if r < 0.2:
+        hist['ct'] = 'np'
+    elif r < 0.35:
+        hist['ct'] = 'tuple'
+    if rng.random() < 0.3:
+        hist['m'] = rng.choice([2, 3])
+    two = fam not in HIER and fam != 'leja' and rng.random() < 0.25
+    doms2 = doms
+    if two:
+        doms2 = [tuple(F(x) for x in rng.choice([d for d in DOMAINS if tuple(F(y) for y in d) != dm])) for dm in doms]
+        hist.update(a2=[fs(d[0]) for d in doms2], b2=[fs(d[1]) for d in doms2])
     nsteps = rng.choice([1, 1, 2, 2, 3, 3, 4]) if fam != 'leja' else rng.choice([1, 2, 2, 3])
+    if two:
+        nsteps = max(nsteps, 3)
     steps = []
-    allow0 = fam in ('trap', 'trapmod', 'simpson', 'cc', 'gl')
-    for _ in range(nsteps):
-        bx = [gen_box(rng, a, b, maxlevel, allow0) for a, b in doms]
+    toggles = fam in ('trap', 'simpson', 'cc') and dim >= 1 and rng.random() < 0.35
+    flags = [None, None]     # running per-dimension flags of the two objects (None = never changed)
+    for k in range(nsteps):
+        obj = rng.randrange(2) if two else 0
+        dd = doms2 if obj == 1 else doms
+        allow0 = [f1 in ('trap', 'trapmod', 'simpson', 'cc', 'gl') for f1 in (hist.get('mixed') or [fam] * dim)]
+        bx = [gen_box(rng, a, b, ml, a0) for (a, b), ml, a0 in zip(dd, maxlevels, allow0)]
         st = dict(s=[fs(x[0]) for x in bx], e=[fs(x[1]) for x in bx], lv=[x[2] for x in bx])
+        if two:
+            st['obj'] = obj
+        if toggles and (rng.random() < 0.6 or flags[obj] is not None):
+            if rng.random() < 0.6 or flags[obj] is None:
+                flags[obj] = [rng.random() < 0.5 for _ in range(dim)]
+                st['setb'] = True
+            st['bnds'] = list(flags[obj])
+        if rng.random() < 0.12 and fam not in HIER:
+            st['none'] = True
+            st['s'], st['e'] = [fs(d[0]) for d in dd], [fs(d[1]) for d in dd]
+        if rng.random() < 0.45 and fam not in HIER and fam != 'leja':
+            st['probe'] = [rng.randrange(0 if a0 else 1, ml + 2) for ml, a0 in zip(maxlevels, allow0)]
         st['exps'] = gen_exps(rng, dict(hist, **st))
         steps.append(st)
     hist['steps'] = steps
+    sib = SIBLINGS.get(fam)
+    if sib and rng.random() < 0.3:
+        # the same first request (and one more) on fresh objects of sibling classes first
+        pre = []
+        for k in range(rng.choice([1, 2])):
+            f2 = rng.choice(sib)
+            st = steps[min(k, len(steps) - 1)]
+            if st.get('obj') == 1:
+                continue
+            pe = dict(fam=f2, bnd=False if f2 in ('trapmod', 'bsplinemod') else bool(bnd), s=st['s'], e=st['e'], lv=st['lv'])
+            if f2 in ('lagrange', 'bspline', 'bsplinemod'):
+                pe['p'] = 3 if f2 != 'lagrange' else rng.choice([2, 3])
+            pre.append(pe)
+        if pre:
+            hist['pre'] = pre
     return hist
+
+
+SIBLINGS = {'trap': ['simpson', 'trapmod'], 'simpson': ['trap', 'trapmod'], 'trapmod': ['trap', 'simpson'],
+            'lagrange': ['bspline'], 'bspline': ['lagrange', 'bsplinemod'], 'cc': ['trap', 'gl'], 'gl': ['cc'], 'leja': ['gl']}
+
+
+def big_cases(rng):
+    """sizes beyond typical internal thresholds (64, 200, 1024 points per dimension): fixed families / level vectors; every
+    history visits a sub-box touching neither side, one touching the lower and one touching the upper side of the domain
+    in every dimension (random order, random position), the trapezoidal / Simpson ones at full size in every step"""
+    out = []
+
+    def box(a, b, kind):
+        a, b = F(a), F(b)
+        n = 8
+        if kind == 0:
+            i = rng.randrange(1, n - 1)
+            j = rng.randrange(i + 1, n)
+        elif kind == 1:
+            i, j = 0, rng.randrange(1, n)
+        else:
+            i, j = rng.randrange(1, n), n
+        return fs(a + (b - a) * F(i, n)), fs(a + (b - a) * F(j, n))
+    for fam, bnd, lvs in (('trap', True, [11]), ('trap', False, [10]), ('trap', False, [11]), ('trapmod', False, [11]),
+                          ('simpson', True, [10]), ('simpson', False, [11]), ('trap', False, [7, 5]), ('simpson', True, [6, 6]),
+                          ('trapmod', False, [8, 3]), ('trap', True, [5, 4, 4]), ('cc', True, [6]), ('cc', False, [7]),
+                          ('gl', False, [6]), ('cc', True, [5, 4]), ('gl', False, [5, 3]), ('leja', True, [6]),
+                          ('mixed', False, [8, 6])):
+        dim = len(lvs)
+        dom = [rng.choice(DOMAINS) for _ in range(dim)]
+        h = dict(fam=fam, bnd=bnd, a=[d[0] for d in dom], b=[d[1] for d in dom])
+        if fam == 'mixed':
+            h.update(mixed=['trap', 'cc'], mbnd=[False, True])
+        if rng.random() < 0.3 and fam != 'gl':
+            h['integ'] = 'old'
+        steps = []
+        kinds = [0, 1, 2]
+        rng.shuffle(kinds)
+        for k, kind in enumerate(kinds):
+            bx = [box(d[0], d[1], (kind + i) % 3) for i, d in enumerate(dom)]
+            full = fam in EQFAM or k == 0
+            lv = list(lvs) if full else [max(1, l - rng.randrange(1, 3)) for l in lvs]
+            st = dict(s=[x[0] for x in bx], e=[x[1] for x in bx], lv=lv)
+            degs = nominal_degrees(dict(h, **st), npwb_of(dict(h, **st)))
+            st['exps'] = [[0] * dim, [min(k2, 3) for k2 in degs]]
+            if fam not in ('leja',):
+                st['probe'] = [max(1, l - 1) for l in lv]
+            steps.append(st)
+        h['steps'] = steps
+        out.append(h)
+    return out
 
 
 def nominal_degrees(case, npwb, guaranteed=False):
     """nominal exactness degree per dimension, n = number of points per dimension incl. boundary points.
     guaranteed=True: for the Lagrange family the degree the hierarchical construction can deliver, min(p, level+1)
     (level-l basis functions interpolate on at most l+2 knots) - below the nominal min(p, n-1) for p >= 4."""
-    fam = case['fam']
     out = []
-    for n, l in zip(npwb, case['lv']):
+    for fam, n, l in zip(dimfams(case), npwb, case['lv']):
         if fam in ('trap', 'trapmod'):
             out.append(1)
         elif fam == 'simpson':
@@ -317,19 +620,21 @@ def nominal_degrees(case, npwb, guaranteed=False):
 
 
 def npwb_of(case):
-    if case['fam'] == 'leja':
-        return [2 if l == 0 else 2 * (l + 1) - 1 for l in case['lv']]
-    return [2 ** l + 1 for l in case['lv']]
+    return [(2 if l == 0 else 2 * (l + 1) - 1) if f1 == 'leja' else 2 ** l + 1 for f1, l in zip(dimfams(case), case['lv'])]
 
 
 def meaningful(case):
     """per dimension: is the weight-sum/degree clause evaluated (scope decision G)?"""
-    if case['bnd'] or case['fam'] in ('trapmod', 'bsplinemod', 'gl'):
-        if case['fam'] in ('trapmod', 'bsplinemod'):
+    out = []
+    for f1, bd, t, l in zip(dimfams(case), dimbnds(case), touch_class(case), case['lv']):
+        if f1 in ('trapmod', 'bsplinemod'):
             # a modified basis needs at least one point to extrapolate from
-            return [not (t == 2 and l == 0) for t, l in zip(touch_class(case), case['lv'])]
-        return [True] * len(case['lv'])
-    return [t == 0 for t in touch_class(case)]
+            out.append(not (t == 2 and l == 0) if not bd else True)
+        elif bd or f1 == 'gl':
+            out.append(True)
+        else:
+            out.append(t == 0)
+    return out
 
 
 def gen_exps(rng, case):
@@ -338,7 +643,6 @@ def gen_exps(rng, case):
     out = [[0] * d, list(degs)]
     for _ in range(3):
         out.append([rng.randrange(0, k + 1) for k in degs])
-    # one beyond the nominal degree in one dimension (recorded, not asserted)
     res = []
     cap = 12 if d == 1 else 6     # the per-dimension checker moments_ok covers every degree; these probe the tensor rule
     for x in out:
@@ -348,10 +652,15 @@ def gen_exps(rng, case):
     return res
 
 
-def H(fam, bnd, a, b, steps, p=None):
+def H(fam, bnd, a, b, steps, p=None, **kw):
     h = dict(fam=fam, bnd=bnd, a=a, b=b, steps=[dict(s=s, e=e, lv=lv, exps=exps) for s, e, lv, exps in steps])
     if p is not None:
         h['p'] = p
+    extra = kw.pop('steps_extra', None)
+    h.update(kw)
+    if extra:
+        for st, x in zip(h['steps'], extra):
+            st.update(x)
     return h
 
 
@@ -371,6 +680,7 @@ CORPUS = [
     H('trap', False, ['0'], ['1'], [(['0'], ['1/2'], [0], [[0], [1]])]),
     H('simpson', False, ['0'], ['1'], [(['1/2'], ['1'], [0], [[0], [1]])]),
     H('lagrange', True, ['0'], ['4'], [(['1'], ['4'], [2], [[0], [4]])], p=5),
+    H('trap', False, [FAR_DOMAIN[0]], [FAR_DOMAIN[1]], [(['34359738369/2'], ['68719476739/4'], [2], [[0], [1]])]),
     # regression histories that must agree: one object swept over several sub-boxes / level vectors
     H('trap', False, ['0'], ['1'], [(['0'], ['1/2'], [2], [[0], [1]]), (['1/4'], ['1/2'], [2], [[0], [1]]),
                                     (['1/2'], ['1'], [3], [[0], [1]]), (['0'], ['1'], [1], [[0], [1]])]),
@@ -388,6 +698,28 @@ CORPUS = [
     H('lagrange', True, ['0', '0'], ['1', '1'], [(['0', '1/2'], ['1/2', '1'], [2, 1], [[0, 0], [3, 2]]),
                                                  (['1/2', '0'], ['1', '1'], [1, 2], [[0, 0], [2, 3]])], p=3),
     H('bspline', True, ['-1'], ['1'], [(['-1/2'], ['0'], [3], [[0], [3]]), (['-1'], ['1'], [2], [[0], [3]])], p=3),
+    # round 2: constructor options, call conventions, per-dimension flags, announcements at other level vectors,
+    # two objects of one class, mixed 1D families
+    H('trap', False, ['0', '0'], ['1', '1'], [(['1/4', '0'], ['1/2', '1'], [2, 1], [[0, 0], [1, 1]]),
+                                              (['0', '0'], ['1/2', '1'], [2, 2], [[0, 0], [1, 1]])],
+      integ='old', m=3, steps_extra=[dict(probe=[3, 4]), dict(probe=[1, 0])]),
+    H('simpson', False, ['0', '0'], ['1', '1'], [(['0', '0'], ['1/2', '1'], [2, 1], [[0, 0], [1, 1]]),
+                                                 (['0', '0'], ['1/2', '1'], [2, 1], [[0, 0], [3, 1]]),
+                                                 (['1/2', '0'], ['1', '1/2'], [2, 2], [[0, 0], [1, 1]])],
+      steps_extra=[dict(), dict(setb=True, bnds=[True, False]), dict(bnds=[True, False], probe=[3, 1])]),
+    H('trap', False, ['0'], ['1'], [(['0'], ['1/2'], [2], [[0], [1]]), (['0'], ['1'], [2], [[0], [1]]),
+                                    (['1/4'], ['1/2'], [2], [[0], [1]]), (['1/2'], ['2'], [2], [[0], [1]])],
+      a2=['0'], b2=['2'], ct='np', steps_extra=[dict(obj=0), dict(obj=1), dict(obj=0), dict(obj=1)]),
+    H('gl', False, ['0', '-1'], ['4', '1'], [(['1', '-1'], ['3', '0'], [1, 2], [[0, 0], [5, 9]]),
+                                             (['0', '-1'], ['4', '1'], [2, 0], [[0, 0], [3, 3]])], norm=True,
+      steps_extra=[dict(), dict(none=True)]),
+    H('mixed', False, ['0', '0', '-1'], ['1', '1', '2'], [(['0', '1/2', '1/2'], ['1/2', '1', '2'], [2, 1, 2], [[0, 0, 0], [1, 3, 2]]),
+                                                          (['1/4', '0', '-1'], ['1/2', '1', '2'], [1, 2, 1], [[0, 0, 0], [1, 5, 2]])],
+      mixed=['trap', 'gl', 'cc'], mbnd=[False, False, True]),
+    H('cc', True, ['-1'], ['2'], [(['-1'], ['1/2'], [1], [[0], [2]]), (['1/2'], ['2'], [2], [[0], [4]])], integ='old', ct='tuple'),
+    H('leja', True, ['0'], ['4'], [(['1'], ['3'], [2], [[0], [4]]), (['0'], ['4'], [1], [[0], [2]])], integ='old'),
+    H('simpson', True, ['0', '-1'], ['1', '2'], [(['1/4', '-1'], ['1/2', '1/2'], [3, 2], [[0, 0], [3, 3]])],
+      pre=[dict(fam='trap', bnd=True, s=['1/4', '-1'], e=['1/2', '1/2'], lv=[3, 2])]),
 ]
 
 
@@ -397,6 +729,16 @@ def exact_moment(exps, case):
     for k, s, e in zip(exps, case['s'], case['e']):
         s, e = F(s), F(e)
         r *= (e ** (k + 1) - s ** (k + 1)) / (k + 1)
+    return r
+
+
+def norm_factor(case):
+    """GaussLegendreGrid(normalize=True): every 1D rule is divided by the length of its interval"""
+    if not case.get('norm'):
+        return F(1)
+    r = F(1)
+    for s, e in zip(case['s'], case['e']):
+        r *= F(e) - F(s)
     return r
 
 
@@ -412,10 +754,23 @@ def rule_moment(exps, pts, wts):
     return tot, atot
 
 
+def first_component(case, v, scale=None, npts=0):
+    """integral of the vector-valued integrand (r, 2r, .., m r): component 0 after checking the others
+    (scale = sum of |weight * value| of the rule: the components are rounded sums)"""
+    m = int(case.get('m', 1))
+    if len(v) != m:
+        return None
+    for j in range(1, m):
+        sc = max(abs(v[j]), abs(v[0]) * (j + 1)) if scale is None else scale * (j + 1)
+        if abs(v[j] - (j + 1) * v[0]) > (256 + 2 * npts) * EPS * sc:
+            return None
+    return v[0]
+
+
 def oracle(case, r):
     """The property's own predicate on the implementation outputs. Returns list of (kind, sig_extra, text);
     only the first (root) failure of a case is reported."""
-    fam, bnd = case['fam'], case['bnd']
+    fam = case['fam']
     if 'exc' in r and r['exc'][0] != 'integrate':
         return [('exception', dict(stage=r['exc'][0], exc=r['exc'][1]), 'raises %s' % r['exc'])]
     num = r['num']
@@ -429,6 +784,16 @@ def oracle(case, r):
                      % (d, n, len(coords[d])))]
     if len(pts) != ann:
         return [('count-mismatch', {}, 'levelToNumPoints announces %d points, getPoints returns %d' % (ann, len(pts)))]
+    if r.get('num_attr') is not None and (list(r['num_attr']) != list(num) or r.get('get_num_points') != ann):
+        return [('count-mismatch', dict(observable='numPoints'), 'grid.numPoints = %s, get_num_points() = %s, levelToNumPoints = %s'
+                 % (r['num_attr'], r.get('get_num_points'), num))]
+    if 'num_after_probe' in r and list(r['num_after_probe']) != list(num):
+        return [('count-mismatch', dict(observable='announcement-after-probe'),
+                 'levelToNumPoints(levelvec) = %s before and %s after announcing another level vector' % (num, r['num_after_probe']))]
+    if 'probe_fresh' in r and 'num_probe' in r and list(r['probe_fresh']) != list(r['num_probe']):
+        return [('count-mismatch', dict(observable='announcement-other-levelvec'),
+                 'levelToNumPoints(%s) announces %s on the current area; a grid set to that level vector returns %s points per dimension'
+                 % (case['probe'], r['num_probe'], r['probe_fresh']))]
     for d in range(len(num)):
         if len(w1[d]) != len(coords[d]):
             return [('points-weights-length-mismatch', {}, 'dimension %d: %d coordinates but %d weights'
@@ -446,20 +811,27 @@ def oracle(case, r):
         on = r['on']
         a = [F(x) for x in case['a']]
         b = [F(x) for x in case['b']]
-        for d in range(len(num)):
-            keep = [(x, w) for x, w in zip(on['coords'][d], on['w1'][d]) if x != a[d] and x != b[d]]
+        for d, (f1, bd) in enumerate(zip(dimfams(case), dimbnds(case))):
+            if f1 not in ('trap', 'simpson', 'cc'):
+                continue
+            if bd:
+                keep = list(zip(on['coords'][d], on['w1'][d]))
+            else:
+                keep = [(x, w) for x, w in zip(on['coords'][d], on['w1'][d]) if x != a[d] and x != b[d]]
             got = list(zip(coords[d], w1[d]))
             if keep != got:
-                lvl0 = case['lv'][d] == 0 and touch_class(case)[d] == 1
-                return [('boundary-off-not-restriction', dict(level0_onesided=lvl0),
-                         'dimension %d: boundary=False returns %s, boundary=True without the global boundary points is %s'
-                         % (d, [(float(x), float(w)) for x, w in got][:6], [(float(x), float(w)) for x, w in keep][:6]))]
+                lvl0 = case['lv'][d] == 0 and touch_class(case)[d] == 1 and not bd
+                return [('boundary-off-not-restriction', dict(level0_onesided=lvl0, family=f1, boundary=bool(bd)),
+                         'dimension %d (flag %s): grid returns %s, boundary=True %s is %s'
+                         % (d, bd, [(float(x), float(w)) for x, w in got][:6],
+                            'itself' if bd else 'without the global boundary points', [(float(x), float(w)) for x, w in keep][:6]))]
     # weight sum / nominal degree where meaningful
     mean = meaningful(case)
     degs = nominal_degrees(case, npwb_of(case))
     gdegs = nominal_degrees(case, npwb_of(case), guaranteed=True)
     rtol = RTOL[fam]
     use_w = r.get('effw') if fam in HIER else wts
+    nf = norm_factor(case)
 
     def kind_for(exps):
         if all(k <= g for k, g in zip(exps, gdegs)):
@@ -470,16 +842,25 @@ def oracle(case, r):
     if all(mean) and use_w is not None:
         for exps in [[0] * len(num)] + [x for x in case.get('exps', []) if all(k <= dg for k, dg in zip(x, degs))]:
             tot, atot = rule_moment(exps, pts, use_w)
-            ex = exact_moment(exps, case)
+            ex = exact_moment(exps, case) / nf
             if abs(tot - ex) > rtol * atot:
                 what = 'weights sum to %s, box volume is %s' % (float(tot), float(ex)) if not any(exps) else \
                     'monomial with exponents %s: rule gives %.17g, exact %.17g' % (exps, float(tot), float(ex))
                 res.append((kind_for(exps), dict(degree0=not any(exps)), what))
-    if all(mean) and 'integrals' in r:
-        for exps, v in zip(case.get('exps', []), r['integrals']):
-            if all(k <= dg for k, dg in zip(exps, degs)):
-                ex = exact_moment(exps, case)
-                tot, atot = rule_moment(exps, pts, [abs(w) for w in (use_w or wts)])
+    if 'integrals' in r:
+        for exps, vv in zip(case.get('exps', []), r['integrals']):
+            # integrate() is the scalar product of the rule with the function values (whatever the rule's quality)
+            tot, atot = rule_moment(exps, pts, use_w or wts)
+            v = first_component(case, vv, atot, len(pts))
+            if v is None:
+                res.append(('integrate-components', {}, 'integrate() of (r, 2r, ..) with exponents %s returns %s' % (exps, [float(x) for x in vv])))
+                continue
+            if fam not in HIER and abs(v - tot) > (256 + 2 * len(pts)) * EPS * atot:
+                res.append(('integrate-not-rule', {}, 'integrate() of the monomial with exponents %s returns %.17g, the rule applied to it gives %.17g'
+                            % (exps, float(v), float(tot))))
+            if all(mean) and all(k <= dg for k, dg in zip(exps, degs)):
+                ex = exact_moment(exps, case) / nf
+                _, atot = rule_moment(exps, pts, [abs(w) for w in (use_w or wts)])
                 if abs(v - ex) > max(rtol, F(1, 2 ** 36)) * max(atot, abs(ex)):
                     res.append((kind_for(exps), dict(degree0=not any(exps)),
                                 'integrate() of the monomial with exponents %s returns %.17g, exact %.17g' % (exps, float(v), float(ex))))
@@ -489,6 +870,11 @@ def oracle(case, r):
 
 
 # ----------------------------------------------------------------------------------------------- comparison
+def sum_factor(npts):
+    """rounding of a float sum of npts terms (sequential summation in the 'old' integrator): 256 + 2 * npts ulps of sum|terms|"""
+    return 256 + 2 * npts
+
+
 def close(x, y, scale=None, factor=256):
     if x == y:
         return True
@@ -496,27 +882,83 @@ def close(x, y, scale=None, factor=256):
     return abs(x - y) <= factor * EPS * sc
 
 
+def degree_cap(n):
+    """highest degree evaluated by the exact-arithmetic checker for a 1D rule with n points (cost grows with n * degree^2
+    bits of the 53-bit floats; rules with more points are probed at low degrees - their low levels are probed fully)"""
+    return 40 if n <= 17 else 16 if n <= 33 else 6
+
+
+def cnt_lo_np(case, d):
+    """(lowerBorder, number of points) of dimension d as the border logic of the model computes them (Python mirror used
+    only to slice the reference rule of Clenshaw-Curtis; the counts themselves are compared with the model)"""
+    t_l = F(case['s'][d]) == F(case['a'][d])
+    t_r = F(case['e'][d]) == F(case['b'][d])
+    npwb = 2 ** case['lv'][d] + 1
+    if dimbnds(case)[d]:
+        return 0, npwb
+    return (1 if t_l else 0), npwb - int(t_l) - int(t_r)
+
+
 def model_cases_for(case, r):
     """model invocations for one case: list of (tag, (sub, value))"""
     fam = case['fam']
+    fams, bnds = dimfams(case), dimbnds(case)
+    nd = len(case['lv'])
     out = []
-    if fam in EQFAM:
-        dims = [[F(a), F(b), F(s), F(e), l] for a, b, s, e, l in zip(case['a'], case['b'], case['s'], case['e'], case['lv'])]
+    dims = [[F(a), F(b), F(s), F(e), l] for a, b, s, e, l in zip(case['a'], case['b'], case['s'], case['e'], case['lv'])]
+    big = max(case['lv']) >= 8 or (nd >= 2 and sum(case['lv']) >= 10)
+    if fam in EQFAM and uniform(case):
         out.append(('eq', (0, [EQFAM[fam], 1 if case['bnd'] else 0, dims, case.get('exps', [])])))
-    for d in range(len(case['lv'])):
-        out.append(('cnt%d' % d, (2, [CNTFAM[fam], 1 if case['bnd'] else 0, F(case['a'][d]), F(case['b'][d]),
-                                     F(case['s'][d]), F(case['e'][d]), case['lv'][d]])))
+    elif all(f1 in EQFAM for f1 in fams):
+        out.append(('eq', (5, [[[EQFAM[f1], 1 if bd else 0, dm] for f1, bd, dm in zip(fams, bnds, dims)], case.get('exps', [])])))
+    else:
+        for d, (f1, bd) in enumerate(zip(fams, bnds)):
+            if f1 in EQFAM:      # 1D model of the equidistant dimensions of a mixed grid
+                out.append(('eq1_%d' % d, (5, [[[EQFAM[f1], 1 if bd else 0, dims[d]]], []])))
+    tc = touch_class(case)
+    for d in range(nd):
+        out.append(('cnt%d' % d, (2, [CNTFAM[fams[d]], 1 if bnds[d] else 0] + dims[d])))
+        if fams[d] in ('trap', 'simpson') and not bnds[d] and case['lv'][d] == 0 and tc[d] == 1:
+            # the proposed repair of the level-0 one-sided rule (C08_fix_*): accepted as well
+            out.append(('fx%d' % d, (9, [EQFAM[fams[d]], 0, dims[d]])))
+        if fams[d] == 'leja' and not bnds[d]:
+            out.append(('lejafx%d' % d, (10, [0] + dims[d])))
+        if case.get('probe') is not None:
+            out.append(('pcnt%d' % d, (2, [CNTFAM[fams[d]], 1 if bnds[d] else 0] + dims[d][:4] + [case['probe'][d]])))
     if 'num' in r and 'points' in r:
         mean = meaningful(case)
         degs = nominal_degrees(case, npwb_of(case), guaranteed=True)
-        nd = len(case['lv'])
         if fam not in HIER:
             for d in range(nd):
-                if mean[d] and len(r['coords'][d]) == len(r['w1'][d]) and len(r['coords'][d]) > 0:
-                    out.append(('mom%d' % d, (1, [r['coords'][d], r['w1'][d], F(case['s'][d]), F(case['e'][d]),
-                                                  min(degs[d], 40), RTOL[fam]])))
+                f1 = fams[d]
+                ok_len = len(r['coords'][d]) == len(r['w1'][d]) and len(r['coords'][d]) > 0
+                if mean[d] and ok_len and not (f1 in EQFAM and big):
+                    nf = (F(case['e'][d]) - F(case['s'][d])) if case.get('norm') else F(1)
+                    out.append(('mom%d' % d, (1, [r['coords'][d], [w * nf for w in r['w1'][d]], F(case['s'][d]), F(case['e'][d]),
+                                                  min(degs[d], degree_cap(len(r['coords'][d]))), RTOL[f1]])))
+                ref = (r.get('refs') or [None] * nd)[d]
+                if f1 in AFFINE and ref is not None and ok_len and not (f1 == 'leja' and not bnds[d]):
+                    rc, rw = ref
+                    if f1 == 'cc':
+                        lo, npt = cnt_lo_np(case, d)
+                        rc, rw = rc[lo:lo + npt], rw[lo:lo + npt]
+                    out.append(('aff%d' % d, (4, [AFFINE[f1], 1 if case.get('norm') else 0, F(case['s'][d]), F(case['e'][d]), rc, rw])))
+                    # certificate of the reference rule of this level on its reference interval (deduplicated per run)
+                    rs, re_ = (F(0), F(1)) if f1 == 'leja' else (F(-1), F(1))
+                    out.append(('ref%d' % d, (1, [ref[0], ref[1], rs, re_, min(degs[d], degree_cap(len(ref[0]))), RTOL[f1]])))
+                    near = max(abs(F(case['s'][d])), abs(F(case['e'][d]))) <= 64 * (F(case['e'][d]) - F(case['s'][d]))
+                    if f1 in ('cc', 'leja') and bnds[d] and 2 <= len(r['coords'][d]) <= 5 and near:
+                        out.append(('interp%d' % d, (6, [r['coords'][d], r['w1'][d], F(case['s'][d]), F(case['e'][d]), RTOL[f1]])))
+                    if f1 == 'cc' and case['lv'][d] <= 5 and case['lv'][d] >= 1:
+                        import math
+                        N = 2 ** case['lv'][d]
+                        lo, npt = cnt_lo_np(case, d)
+                        kt = [F(math.cos(math.pi * i / N)) for i in range(N + 1)]
+                        ct = [F(math.cos(2 * math.pi * m / N)) for m in range(N * (N // 2) + 1)]
+                        out.append(('ccf%d' % d, (8, [N + 1, lo, npt, kt, ct, F(case['s'][d]), F(case['e'][d])])))
         wts = r.get('effw') if fam in HIER else r['weights']
         box = [[F(s), F(e)] for s, e in zip(case['s'], case['e'])]
+        nfall = norm_factor(case)
         if all(mean) and wts is not None and len(wts) == len(r['points']) and 0 < len(wts) <= 130:
             expss = [[0] * nd]
             if fam in HIER:      # every degree along every axis (no 1D rule is observable for these families)
@@ -526,18 +968,26 @@ def model_cases_for(case, r):
             for x in case.get('exps', []):
                 if all(k <= dg for k, dg in zip(x, degs)) and x not in expss:
                     expss.append(x)
-            out.append(('nd', (3, [r['points'], wts, box, expss, RTOL[fam]])))
+            out.append(('nd', (3, [r['points'], [w * nfall for w in wts], box, expss, RTOL[fam]])))
         elif len(r['points']) == len(r['weights']) and 0 < len(r['points']) <= 400:
             out.append(('inside', (3, [r['points'], r['weights'], box, [], F(1)])))
+        # tensor points / weights / integrals = tensor product of the 1D arrays (every family)
+        if fam not in EQFAM and all(len(c) == len(w) for c, w in zip(r['coords'], r['w1'])) and 0 < len(r['points']) <= 1500:
+            out.append(('tensor', (7, [r['coords'], r['w1'], case.get('exps', []) if fam not in HIER else []])))
     return out
 
 
 def key_of(case):
-    return json.dumps([case['fam'], case.get('p'), case['bnd'], case['a'], case['b'], case['s'], case['e'], case['lv']])
+    return json.dumps([case['fam'], case.get('p'), case.get('mixed'), dimbnds(case), case.get('integ'), case['a'], case['b'],
+                       case['s'], case['e'], case['lv']])
 
 
 def sig_of(case):
     return dict(family=case['fam'], boundary=case['bnd'], whole_domain=all(t == 2 for t in touch_class(case)))
+
+
+def qq(l):
+    return [sx.q(x) for x in l]
 
 
 def judge(chk, case, st, r, mres, report_case=None):
@@ -552,6 +1002,7 @@ def judge(chk, case, st, r, mres, report_case=None):
     orc = oracle(case, r)
     diffs = []
     fam = case['fam']
+    fams, bnds = dimfams(case), dimbnds(case)
     # ---- counts (all families)
     for d in range(len(case['lv'])):
         m = mres.get('cnt%d' % d)
@@ -559,18 +1010,32 @@ def judge(chk, case, st, r, mres, report_case=None):
             diffs.append(('model-count', 'model error %s' % (m,)))
             continue
         np_, npwb, lo, up, ln = m
+        f1 = fams[d]
+        fxm = mres.get('lejafx%d' % d)
+        if fxm is not None and not sx.is_err(fxm) and 'num' in r and r['num'][d] == fxm[0] != np_:
+            np_, npwb, lo, up, ln = fxm       # Leja count with the proposed repair (sub-box dependent)
         if 'num' in r:
             if r['num'][d] != np_:
                 diffs.append(('levelToNumPoints', 'dimension %d: model announces %d, implementation %d' % (d, np_, r['num'][d])))
+            if r.get('attrs') is not None and f1 not in HIER and f1 != 'leja' and list(r['attrs'][d]) != [np_, npwb, lo, up]:
+                diffs.append(('set_current_area-attributes', 'dimension %d: (num_points, num_points_with_boundary, lowerBorder, upperBorder) '
+                              'model %s implementation %s' % (d, [np_, npwb, lo, up], r['attrs'][d])))
+            if r.get('numwb') is not None and r['numwb'][d] != npwb:
+                diffs.append(('levelToNumPointsWithBoundary', 'dimension %d: model %d, implementation %d' % (d, npwb, r['numwb'][d])))
             if 'coords' in r:
-                want = ln if not (fam in ('trap', 'trapmod', 'simpson') and not case['bnd'] and np_ == 1) else 1
-                if fam == 'gl':
-                    want = np_
-                if fam == 'cc':
-                    want = np_       # Clenshaw-Curtis builds exactly num_points coordinates (no slice)
+                want = ln if not (f1 in ('trap', 'trapmod', 'simpson') and not bnds[d] and np_ == 1) else 1
+                if f1 in ('gl', 'cc'):
+                    want = np_       # Gauss / Clenshaw-Curtis build exactly num_points coordinates (no slice)
                 if len(r['coords'][d]) != want:
                     diffs.append(('coords-length', 'dimension %d: model slice has %d indices, implementation returns %d coordinates'
                                   % (d, want, len(r['coords'][d]))))
+        pm = mres.get('pcnt%d' % d)
+        if pm is not None and 'num_probe' in r:
+            if sx.is_err(pm):
+                diffs.append(('model-count', 'model error %s' % (pm,)))
+            elif r['num_probe'][d] != pm[0] or r['numwb_probe'][d] != pm[1]:
+                diffs.append(('levelToNumPoints-other-levelvec', 'dimension %d, level %d on the current area: model announces %d (%d with boundary), '
+                              'implementation %d (%d)' % (d, case['probe'][d], pm[0], pm[1], r['num_probe'][d], r['numwb_probe'][d])))
     # ---- exact model (trapezoidal / Simpson)
     m = mres.get('eq')
     if m is not None and 'coords' in r:
@@ -578,40 +1043,128 @@ def judge(chk, case, st, r, mres, report_case=None):
             diffs.append(('model', 'model error %s' % (m,)))
         else:
             mnum, mcoords, mw1, mpts, mwts, mints, mexact = m
-            mcoords = [[sx.q(x) for x in c] for c in mcoords]
-            mw1 = [[sx.q(x) for x in c] for c in mw1]
-            mpts = [[sx.q(x) for x in p] for p in mpts]
-            mwts = [sx.q(x) for x in mwts]
-            mints = [sx.q(x) for x in mints]
-            exactw = fam != 'simpson'
+            mcoords = [qq(c) for c in mcoords]
+            mw1 = [qq(c) for c in mw1]
+            mpts = [qq(p) for p in mpts]
+            mwts = qq(mwts)
+            mints = qq(mints)
+            subst = False
+            for d in range(len(case['lv'])):
+                fx = mres.get('fx%d' % d)
+                if fx is not None and not sx.is_err(fx) and qq(fx[0]) == r['coords'][d] and qq(fx[1]) == r['w1'][d] \
+                        and (mcoords[d] != r['coords'][d] or mw1[d] != r['w1'][d]):
+                    mcoords[d], mw1[d] = qq(fx[0]), qq(fx[1])     # the repaired level-0 rule
+                    subst = True
+            if subst:
+                import itertools
+                mpts = [list(p) for p in itertools.product(*mcoords)]
+                mwts = []
+                for ws in itertools.product(*mw1):
+                    t = F(1)
+                    for w in ws:
+                        t *= w
+                    mwts.append(t)
+                mints = [rule_moment(exps, mpts, mwts)[0] for exps in case.get('exps', [])]
+            exactw = 'simpson' not in fams
             if mnum != r['num']:
                 diffs.append(('levelToNumPoints', 'model %s implementation %s' % (mnum, r['num'])))
             if mcoords != r['coords']:
                 diffs.append(('coordinates', 'model %s implementation %s' % (
-                    [[float(x) for x in c] for c in mcoords], [[float(x) for x in c] for c in r['coords']])))
+                    [[float(x) for x in c][:8] for c in mcoords], [[float(x) for x in c][:8] for c in r['coords']])))
             okw = [len(a) == len(b) and all((x == y) if exactw else close(y, x, factor=4) for x, y in zip(a, b))
                    for a, b in zip(mw1, r['w1'])]
             if not all(okw) or len(mw1) != len(r['w1']):
                 diffs.append(('weights1d', 'model %s implementation %s' % (
-                    [[float(x) for x in c] for c in mw1], [[float(x) for x in c] for c in r['w1']])))
+                    [[float(x) for x in c][:8] for c in mw1], [[float(x) for x in c][:8] for c in r['w1']])))
             if mpts != r['points']:
                 diffs.append(('points', 'tensor points differ (model %d, implementation %d points)' % (len(mpts), len(r['points']))))
             if len(mwts) != len(r['weights']) or not all((x == y) if exactw else close(y, x, factor=16)
                                                          for x, y in zip(mwts, r['weights'])):
                 diffs.append(('weights', 'tensor weights differ (model %d, implementation %d weights)' % (len(mwts), len(r['weights']))))
             if 'integrals' in r and not diffs:
-                for exps, mv, iv in zip(case.get('exps', []), mints, r['integrals']):
+                for exps, mv, vv in zip(case.get('exps', []), mints, r['integrals']):
                     _, atot = rule_moment(exps, mpts, [abs(w) for w in mwts])
-                    if not close(iv, mv, scale=atot):
-                        diffs.append(('integrate', 'exponents %s: model %.17g implementation %.17g' % (exps, float(mv), float(iv))))
+                    iv = first_component(case, vv, atot, len(mpts))
+                    if iv is None or not close(iv, mv, scale=atot, factor=sum_factor(len(mpts))):
+                        diffs.append(('integrate', 'exponents %s: model %.17g implementation %s' % (exps, float(mv), [float(x) for x in vv])))
+                        break
+    for tag, m in mres.items():
+        if tag.startswith('eq1_') and 'coords' in r:
+            d = int(tag[4:])
+            if sx.is_err(m):
+                diffs.append(('model', 'model error %s' % (m,)))
+                continue
+            exactw = fams[d] != 'simpson'
+            fx = mres.get('fx%d' % d)
+            if fx is not None and not sx.is_err(fx) and qq(fx[0]) == r['coords'][d] and qq(fx[1]) == r['w1'][d]:
+                continue      # the repaired level-0 rule
+            if qq(m[1][0]) != r['coords'][d]:
+                diffs.append(('coordinates', 'dimension %d of the mixed grid: model %s implementation %s'
+                              % (d, [float(x) for x in qq(m[1][0])][:8], [float(x) for x in r['coords'][d]][:8])))
+            mw = qq(m[2][0])
+            if len(mw) != len(r['w1'][d]) or not all((x == y) if exactw else close(y, x, factor=4) for x, y in zip(mw, r['w1'][d])):
+                diffs.append(('weights1d', 'dimension %d of the mixed grid: model %s implementation %s'
+                              % (d, [float(x) for x in mw][:8], [float(x) for x in r['w1'][d]][:8])))
+    # ---- affine map of the reference rule, closed form, interpolatory weights, tensorisation
+    for tag, m in mres.items():
+        if tag.startswith('aff'):
+            d = int(tag[3:])
+            if sx.is_err(m):
+                diffs.append(('model', 'model error %s' % (m,)))
+                continue
+            mp, mw = qq(m[0]), qq(m[1])
+            sc = max(abs(F(case['s'][d])), abs(F(case['e'][d])), F(case['e'][d]) - F(case['s'][d]))
+            if len(mp) != len(r['coords'][d]) or not all(abs(x - y) <= 16 * EPS * sc for x, y in zip(mp, r['coords'][d])):
+                diffs.append(('affine-map-points', 'dimension %d (%s): the reference rule of level %d mapped to the sub-box is %s, '
+                              'implementation %s' % (d, fams[d], case['lv'][d], [float(x) for x in mp][:8], [float(x) for x in r['coords'][d]][:8])))
+            elif len(mw) != len(r['w1'][d]) or not all(abs(x - y) <= 64 * EPS * max(abs(x), abs(y), 1e-300) + 16 * EPS * EPS
+                                                       for x, y in zip(mw, r['w1'][d])):
+                diffs.append(('affine-map-weights', 'dimension %d (%s): the reference weights of level %d mapped to the sub-box are %s, '
+                              'implementation %s' % (d, fams[d], case['lv'][d], [float(x) for x in mw][:8], [float(x) for x in r['w1'][d]][:8])))
+        elif tag.startswith('ccf'):
+            d = int(tag[3:])
+            if sx.is_err(m):
+                diffs.append(('model', 'model error %s' % (m,)))
+                continue
+            mp, mw = qq(m[0]), qq(m[1])
+            ln = F(case['e'][d]) - F(case['s'][d])
+            sc = max(abs(F(case['s'][d])), abs(F(case['e'][d])), ln)
+            if len(mp) != len(r['coords'][d]) or not all(abs(x - y) <= 16 * EPS * sc for x, y in zip(mp, r['coords'][d])):
+                diffs.append(('clenshaw-curtis-points', 'dimension %d: closed form %s implementation %s'
+                              % (d, [float(x) for x in mp][:8], [float(x) for x in r['coords'][d]][:8])))
+            elif len(mw) != len(r['w1'][d]) or not all(abs(x - y) <= F(1, 2 ** 40) * ln for x, y in zip(mw, r['w1'][d])):
+                diffs.append(('clenshaw-curtis-weights', 'dimension %d: closed form %s implementation %s'
+                              % (d, [float(x) for x in mw][:8], [float(x) for x in r['w1'][d]][:8])))
+        elif tag.startswith('interp'):
+            d = int(tag[6:])
+            if sx.is_err(m) or m[0] != 1:
+                diffs.append(('checker:interp_ok', 'dimension %d: the weights are not the interpolatory weights of the nodes: %s vs %s'
+                              % (d, [float(x) for x in r['w1'][d]], [float(x) for x in qq(m[1])] if not sx.is_err(m) else m)))
+        elif tag == 'tensor':
+            if sx.is_err(m):
+                diffs.append(('model', 'model error %s' % (m,)))
+                continue
+            tp, tw, ti = [qq(p) for p in m[0]], qq(m[1]), qq(m[2])
+            if tp != r['points']:
+                diffs.append(('tensor-points', 'getPoints is not the cross product of the 1D coordinates (%d vs %d points)' % (len(tp), len(r['points']))))
+            elif len(tw) != len(r['weights']) or not all(close(y, x, factor=16) for x, y in zip(tw, r['weights'])):
+                diffs.append(('tensor-weights', 'get_weights is not the product of the 1D weights'))
+            elif 'integrals' in r and fam not in HIER:
+                for exps, mv, vv in zip(case.get('exps', []), ti, r['integrals']):
+                    _, atot = rule_moment(exps, tp, [abs(w) for w in tw])
+                    iv = first_component(case, vv, atot, len(tp))
+                    if iv is None or not close(iv, mv, scale=atot, factor=sum_factor(len(tp))):
+                        diffs.append(('integrate', 'exponents %s: tensor rule %.17g implementation %s' % (exps, float(mv), [float(x) for x in vv])))
                         break
     # ---- verified checkers on implementation outputs
     for tag, m in mres.items():
-        if tag.startswith('mom'):
+        if tag.startswith('mom') or tag.startswith('ref'):
             d = int(tag[3:])
             if sx.is_err(m) or m[0] != 1:
-                diffs.append(('checker:moments_ok', 'dimension %d: moments_ok rejects the 1D rule returned by the implementation '
-                              '(first failing degree %s)' % (d, m[1] if not sx.is_err(m) else m)))
+                what = 'the 1D rule returned by the implementation' if tag.startswith('mom') else \
+                    'the reference rule of level %d (%s)' % (case['lv'][d], fams[d])
+                diffs.append(('checker:moments_ok', 'dimension %d: moments_ok rejects %s (first failing degree %s)'
+                              % (d, what, m[1] if not sx.is_err(m) else m)))
         elif tag == 'nd':
             if sx.is_err(m) or m[0] != 1 or m[1] != 1:
                 diffs.append(('checker:nd_moments_ok', 'nd_moments_ok/inside_box rejects the tensor rule (moments %s inside %s first bad %s)'
@@ -620,7 +1173,14 @@ def judge(chk, case, st, r, mres, report_case=None):
             if sx.is_err(m) or m[1] != 1:
                 diffs.append(('checker:inside_box', 'inside_box rejects a point returned by the implementation'))
     # ---- verdict
-    if orc:
+    if (orc or diffs) and misfire(case) and not all(dimbnds(case)):
+        # root cause named structurally: whatever the manifestation (count, alignment, restriction clause, moments)
+        text = orc[0][2] if orc else 'correspondence differs: %s' % diffs[0][1][:300]
+        chk.violation('oracle:grid_contract', 'isclose-misfire', dict(sig, misfire=True), rc,
+                      dict(property_predicate=text, manifestation=(orc[0][0] if orc else diffs[0][0]),
+                           correspondence=[d[0] for d in diffs]), failing_input=bool(orc))
+        nv += 1
+    elif orc:
         kind, extra, text = orc[0]
         chk.violation('oracle:grid_contract', kind, dict(sig, **extra), rc,
                       dict(property_predicate=text, correspondence=[d[0] for d in diffs], detail=[d[1][:400] for d in diffs][:4]))
@@ -641,17 +1201,26 @@ def run_cases(chk, hists):
     Returns per history: (status, [step results]), [per-step dict tag -> model result]."""
     impl = run_impl(impl_run, hists, limit=240)
     mcases, owner = [], []
+    seen = {}
     for i, (h, (st, rs)) in enumerate(zip(hists, impl)):
         if st != 'ok':
             continue
         for k, (c, r) in enumerate(zip(steps_of(h), rs)):
             for tag, mc in model_cases_for(c, r):
+                if tag.startswith('ref'):      # one certificate per distinct reference rule
+                    key = sx.enc(mc[1])
+                    if key in seen:
+                        owner[seen[key]][1].append((i, k, tag))
+                        continue
+                    seen[key] = len(mcases)
                 mcases.append(mc)
-                owner.append((i, k, tag))
-    mres = run_model(8, mcases, nproc=16)
+                owner.append(((i, k, tag), []))
+    mres = run_model(8, mcases, nproc=NPROC)
     per = [[dict() for _ in h['steps']] for h in hists]
-    for (i, k, tag), m in zip(owner, mres):
+    for ((i, k, tag), more), m in zip(owner, mres):
         per[i][k][tag] = m
+        for (i2, k2, tag2) in more:
+            per[i2][k2][tag2] = m
     return impl, per
 
 
@@ -668,9 +1237,13 @@ def judge_history(chk, h, st, rs, per):
 
 
 def run(chk):
-    chk.coq_obligations()
+    # source-derived model: regenerate coq/Gen/LocalGrid1DGen.v from the working tree BEFORE the obligations, so that the
+    # C08_gen_* theorems are re-checked against the 1D grid classes as they are now
+    gen_info = _c08_gen.regenerate(chk)
+    chk.coq_obligations(extra_props=_c08_gen.EXTRA_PROPS)
+    gen_problem = _c08_gen.diagnose(chk, gen_info)
     n = chk.n(300, 5000)
-    hists = [dict(c) for c in CORPUS] + [gen_case(chk.rng, chk.tier) for _ in range(n)]
+    hists = [dict(c) for c in CORPUS] + big_cases(chk.rng) + [gen_case(chk.rng, chk.tier) for _ in range(n)]
     impl, per = run_cases(chk, hists)
     keys, samples = [], []
     nchk = nsteps = 0
@@ -679,11 +1252,32 @@ def run(chk):
         chk.count('dim=%d' % len(h['a']))
         chk.count('boundary=%s' % h['bnd'])
         chk.count('history_length=%d' % len(h['steps']))
+        chk.count('integrator=%s' % (h.get('integ') or 'default'))
+        chk.count('containers=%s' % h.get('ct', 'list'))
+        chk.count('integrand_output_length=%d' % h.get('m', 1))
+        chk.count('objects_in_history=%d' % (2 if 'a2' in h else 1))
+        chk.count('prelude_on_sibling_classes=%s' % ('pre' in h))
+        if h['fam'] == 'gl':
+            chk.count('gl_normalize=%s' % bool(h.get('norm')))
+        if h['fam'] == 'mixed':
+            for f1 in h['mixed']:
+                chk.count('mixed_1d_family=%s' % f1)
         nv = judge_history(chk, h, st, rs, mres)
         for c, m in zip(steps_of(h), mres):
             nsteps += 1
             chk.count('touch=%s' % ''.join(str(t) for t in sorted(touch_class(c))))
-            nchk += sum(1 for t in m if t.startswith('mom') or t == 'nd')
+            mp = max(npwb_of(c))
+            chk.count('points_per_dim=%s' % ('<=17' if mp <= 17 else '<=65' if mp <= 65 else '<=257' if mp <= 257 else '>=513'))
+            chk.count('level0=%s' % (0 in c['lv']))
+            chk.count('domain=%s' % ('2^34 (isclose misfires)' if misfire(c) else 'far 2^20' if any(F(a) >= 2 ** 20 for a in c['a']) else 'near origin'))
+            chk.count('flags=%s' % ('per-dimension' if (c.get('bnds') is not None and len(set(c['bnds'])) > 1) else
+                                    'toggled' if c.get('bnds') is not None else 'constructor'))
+            chk.count('area=%s' % ('None' if c.get('none') else 'explicit'))
+            chk.count('announcement_other_levelvec=%s' % (c.get('probe') is not None))
+            for t in m:
+                if t.startswith(('aff', 'ccf', 'interp', 'tensor')):
+                    chk.count('model_path=%s' % t.rstrip('0123456789'))
+            nchk += sum(1 for t in m if t.startswith(('mom', 'ref', 'interp')) or t == 'nd')
             if len(c['lv']) >= 2 or max(c['lv']) >= 2:
                 keys.append(key_of(c))
         if st == 'ok' and nv == 0:
@@ -692,16 +1286,22 @@ def run(chk):
                 and h['fam'] in ('trap', 'simpson', 'gl') and 'w1' in rs[-1]:
             samples.append(dict(history=h, num=[r.get('num') for r in rs],
                                 last_weights_1d=[[float(w) for w in ws] for ws in rs[-1]['w1']]))
+    # a broken translation / equivalence is a broken proof obligation; reported without failing input only when the
+    # correspondence and the oracle above found no concrete input on which the implementation violates the property
+    _c08_gen.finish(chk, gen_info, gen_problem)
     chk.extra['checker_evaluations'] = nchk
-    chk.extra['tolerances'] = dict(exact='trapezoidal points/weights, all coordinates, counts', rounded='256*eps*sum|terms| (Simpson weights 4 eps, tensor weights 16 eps)',
+    chk.extra['tolerances'] = dict(exact='trapezoidal points/weights, all coordinates, counts', rounded='256*eps*sum|terms| (Simpson weights 4 eps, tensor weights 16 eps; '
+                                   'affine map of a reference rule: points 16 eps*scale, weights 64 eps relative; Clenshaw-Curtis closed form 2^-40*length)',
                                    checker_rtol={k: '2^-%d' % (v.denominator.bit_length() - 1) for k, v in RTOL.items()})
     chk.extra['steps'] = nsteps
     chk.record_cases(nsteps, keys,
-                     'histories of 1..4 consecutive (sub-box, level vector) requests on ONE grid object; local grids '
-                     '(trapezoidal/modified/Simpson/Clenshaw-Curtis/Leja/Gauss-Legendre/Lagrange/B-spline), d 1..3, '
-                     'anisotropic level vectors, dyadic sub-boxes touching none/one/both global boundaries, boundary flag; '
+                     'histories of 1..4 consecutive (sub-box, level vector) requests on ONE grid object (optionally a second object of '
+                     'the class on another domain, per-dimension flag changes, announcements at other level vectors, None area); local grids '
+                     '(trapezoidal/modified/Simpson/Clenshaw-Curtis/Leja/Gauss-Legendre/Lagrange/B-spline/MixedGrid), d 1..3, '
+                     'anisotropic level vectors up to 2049 points per dimension, dyadic sub-boxes touching none/one/both global boundaries, '
+                     'boundary flag, integrator option, container types, vector-valued integrands; '
                      'evaluations = steps; non-trivial = d >= 2 or some level >= 2; distinct by '
-                     '(family,p,flag,domain,sub-box,levels)', samples)
+                     '(family,p,flags,integrator,domain,sub-box,levels)', samples)
 
 
 def replay(chk, rep):
@@ -717,7 +1317,7 @@ def replay(chk, rep):
     bad = 0
     for k, (c, r) in enumerate(zip(steps_of(h), rs)):
         print('step %d: sub-box %s..%s levels %s' % (k, c['s'], c['e'], c['lv']))
-        print('  impl:', json.dumps(r, default=lambda x: float(x))[:1500])
+        print('  impl:', json.dumps({x: y for x, y in r.items() if x != 'refs'}, default=lambda x: float(x))[:1500])
         print('  model:', json.dumps(per[0][k], default=str)[:1500])
         orc = oracle(c, r)
         print('  property predicate:', orc[0][2] if orc else 'holds')
